@@ -1,5 +1,6 @@
 //! Shared machinery of the mahf runtime monitors (see /verif/DESIGN.md).
 pub mod c01model;
+pub mod c02;
 pub mod observe;
 pub mod problems;
 pub mod report;
